@@ -552,3 +552,12 @@ PROPS["C17"]["stages"].append(dict(name="hist-replay", driver="hist", flavour="a
 PROPS["C17"]["rule"] += ("; replay stage: after every operation of histories (<= 2 -> 3 operations incl. reopen = MANIFEST rollover, with and without reuse_logs) on prepared layouts that use every level "
                          "(a table pushed down to level 6, levels 2-1-0-0, a MANIFEST longer than one block), the independent decoder's fold of the MANIFEST that CURRENT names equals the reported file set, "
                          "and a reopen reproduces it")
+
+# C14 after concurrent executions: the tables written by group commits, memtable switches and a compaction racing a
+# writer are flushed and the reported structure is checked with the independent decoders
+PROPS["C14"]["stages"].append(dict(name="mc-layout", driver="mc", flavour="asan", args=["--prop", "C14"], weight=0.3,
+                                   quick=["--scenarios", "D2e,D2c,D1f,D14", "--bound", "2"],
+                                   thorough=["--scenarios", "D2e,D2c,D1f,D14,D3,D6", "--bound", "3"]))
+PROPS["C14"]["rule"] += ("; concurrent stage: after every schedule (2 -> 3 deviations) of group commits with queued followers and an overwrite of a follower's key (D2e, D2c), a memtable switch with a background flush (D1f) "
+                         "and a writer switching memtables during a manual compaction (D14), the memtable is flushed and the same layout oracle runs (duplicate-free sorted runs, shallower strictly newer, MANIFEST fold == reported)")
+PROPS["C14"]["assumptions"] = PROPS["C14"]["assumptions"] + E1_ASSUME[:3]
